@@ -5,6 +5,12 @@ props=[json.loads(l) for l in open('/verif/properties.jsonl')]
 ENV="GOFLAGS=-mod=mod GOPROXY=off GOSUMDB=off GOTOOLCHAIN=local"
 SIM="the scripted in-memory connection, reference broker (independent MQTT 3.1.1 codec) and instrumented Persistence of /verif/harness/sim model network, broker and store faithfully; faults are realistic (see DESIGN.md section 3 conventions)"
 checks={
+ "C09":("exploration","runtime monitoring: reference validity predicate + strict independent decode of every emitted packet, over a boundary-list x PRNG argument and Config generator; trace monitors for 'no byte, no store operation, no capacity consumed' on denial",
+        "Held on the arguments generated: every valid request was accepted and its packet decoded strictly to the requested fields and equalled the reference encoding; every invalid one was refused with IsDeny (constructor error for Config) without a byte written, a Persistence operation or a slot consumed (probed at a maximum of one in-flight transfer). Input classes are boundary lists, so coverage of the string/size space is by class, not exhaustive.","3/C09"),
+ "C15":("exploration","runtime monitoring: independent re-encoding at the Save boundary (online, concurrent workload under the race detector), exhaustive single-byte damage and truncation through read-only exports, end-to-end damage of each record kind before AdoptSession",
+        "Held on everything enumerated: layout and round trip for all listed sizes and sequence numbers; every single-byte change (exhaustive for records up to 76 bytes: every position x 255 values) and every truncation below 12 bytes was rejected; in real stores a damaged record of each kind was reported and its bytes never reached the wire. Multi-byte damage is measured and reported, not claimed.","3/C15"),
+ "C20":("exploration","runtime monitoring of the doubles against a 30-line reference semantics on a recording testing.TB, exhaustive within the stated small scope",
+        "Held exhaustively within scope: all expectation lists (length 0-3) x all invocation sequences (length 0-4) over a 2x2 alphabet plus closed quit for the publish mock; all filter-set expectation lists (length 0-2) x invocation sequences (length 0-2, filter sequences up to 3 with repetitions) for both subscribe mocks; all exchange scripts of length 0-3; stubs and ReadSlices doubles on their contracts.","3/C20"),
  "C08":("fault_enumeration","runtime monitoring: per-connection byte log decoded by the independent codec and accounted packet by packet, under scripted write splits (expiry after progress, hard errors) and 1-12 concurrent request goroutines plus the read routine's acknowledgements; race detector on",
         "Held on the episodes run: every connection's bytes were a concatenation of complete packets, each byte-identical to the reference encoding of an issued request, a stored record or an owed acknowledgement, followed by at most one true prefix ending the log; no request reported success without its complete packet on the wire. Splits are PRNG-placed (0, 1, len-1, random; spanning header/payload), not enumerated exhaustively.","3/C08"),
  "C04":("fault_enumeration","runtime monitoring: reception oracle over step-scripted episodes with the reference broker as QoS 2 sender (retransmissions, identifier reuse), lost acknowledgements, breaks, restarts via AdoptSession, transient store errors",
